@@ -24,6 +24,7 @@ LEVEL = "exploration"
 NEEDS_RUST = True
 WORKERS = 14
 CASE_TIMEOUT = 200
+QUIESCENCE_SCOPE = "process"   # helpers are polling feeders only
 QUIESCENCE_AFTER = 12.0
 REQUIRED_OBS = ["passes_compared", "gated_passes", "out_of_order_releases", "early_drops", "thread_count_checks",
                 "native_harness_tests"]
@@ -165,6 +166,40 @@ def run_case(case: dict) -> dict:
                                    "msg": f"{label}: {after - before} native thread(s) still alive 3 s after the "
                                           f"iterator was dropped ({before} -> {after})"})
             sigs.append([comp, layout, len(paths), T, gated, position if total <= 8 else "sampled"])
+        # ---- overlapping readers with non-nested lifetimes: A starts, B starts, A finishes, C starts while B
+        #      is mid-way (train/validation interleaving across an epoch boundary)
+        try:
+            kwargs = {"file_parallelism": 2}
+            it_a, close_a = readers.open_stream(dataset, "rust", "train", shuffle=0, repeat=False, **kwargs)
+            it_b, close_b = readers.open_stream(dataset, "rust", "train", shuffle=0, repeat=False, **kwargs)
+            got_a, got_b, got_c = [], [], []
+            first = next(it_a, None)
+            if first is not None:
+                got_a.append(canonical(first))
+            first = next(it_b, None)
+            if first is not None:
+                got_b.append(canonical(first))
+            got_a += [canonical(e) for e in it_a]
+            close_a()
+            it_c, close_c = readers.open_stream(dataset, "rust", "train", shuffle=0, repeat=False, **kwargs)
+            import itertools
+            for ex_b, ex_c in itertools.zip_longest(it_b, it_c):
+                if ex_b is not None:
+                    got_b.append(canonical(ex_b))
+                if ex_c is not None:
+                    got_c.append(canonical(ex_c))
+            close_b()
+            close_c()
+            obs["overlapping_reader_groups"] += 1
+            for name, got in (("A", got_a), ("B", got_b), ("C", got_c)):
+                if got != python_seq:
+                    violations.append({"key": "overlapping-rust-readers-interfere",
+                                       "msg": f"fb/{comp or 'none'} shards={len(paths)}: reader {name} yielded {len(got)} "
+                                              f"examples, differs from the Python sequence ({len(python_seq)})"})
+        except BaseException as exc:  # pylint: disable=broad-exception-caught
+            if isinstance(exc, (KeyboardInterrupt, SystemExit)):
+                raise
+            violations.append({"key": "overlapping-rust-readers-raised", "msg": f"{type(exc).__name__}: {str(exc)[:200]}"})
         # ---- two Python threads, each with its own Rust reader: A waits on slow (gated) shards of the dataset
         #      while B keeps creating / iterating / dropping readers over an ungated copy
         import shutil
